@@ -7,6 +7,7 @@ Definition io_item : Type := outcome * list path * result.
 Section WithFS.
 Variable phys : path -> path.
 Variable fixed : bool.
+Variable fixio : bool.     (* true: /repo as of b32af0b; false: before *)
 Variable opt : options.
 
 (* a history with, for every rebuild, what scan+link produced, where writing
@@ -14,12 +15,38 @@ Variable opt : options.
 Fixpoint trace_io_full (st : state) (ocs : list (outcome * list path)) : list io_item :=
   match ocs with
   | [] => []
-  | (oc, wf) :: r => let '(st', res) := step_io phys fixed opt st oc wf in (oc, wf, res) :: trace_io_full st' r
+  | (oc, wf) :: r => let '(st', res) := step_io_gen phys fixed fixio opt st oc wf in (oc, wf, res) :: trace_io_full st' r
   end.
 
 Definition reported_paths (rs : list io_item) : list path := flat_map (fun x => map o_path (r_outputs (snd x))) rs.
 Definition written_paths_io (rs : list io_item) : list path := flat_map (fun x => writes_of (r_effects (snd x))) rs.
-Definition failed_paths (rs : list io_item) : list path := flat_map (fun x => snd (fst x)) rs.
+(* paths at which a write failed and that nevertheless stayed in the hash table: none since b32af0b *)
+Definition failed_paths (rs : list io_item) : list path :=
+  if fixio then [] else flat_map (fun x => snd (fst x)) rs.
+
+Lemma lookup_forget_failed old l : forall m q,
+  lookup (forget_failed m old l) q = if mem q l then lookup old q else lookup m q.
+Proof.
+  induction l as [|p l IH]; intros m q; [reflexivity|].
+  change (forget_failed m old (p :: l))
+    with (forget_failed (match lookup old p with Some h => upd m p h | None => remove m p end) old l).
+  rewrite IH. unfold mem at 2. simpl existsb. fold (mem q l).
+  destruct (mem q l); [rewrite orb_true_r; reflexivity|]. rewrite orb_false_r.
+  rewrite (path_eqb_sym q p).
+  destruct (lookup old p) as [h|] eqn:EL.
+  - rewrite lookup_upd. destruct (path_eqb p q) eqn:E; [|reflexivity].
+    apply path_eqb_eq in E. subst. symmetry. exact EL.
+  - rewrite lookup_remove. destruct (path_eqb p q) eqn:E; [|reflexivity].
+    apply path_eqb_eq in E. subst. symmetry. exact EL.
+Qed.
+
+Lemma in_keys_lookup {V} (m : fmap V) p : In p (keys m) <-> lookup m p <> None.
+Proof.
+  split.
+  - intros H E. apply lookup_none_keys in E. contradiction.
+  - intro H. destruct (in_dec (list_eq_dec Z.eq_dec) p (keys m)) as [I|N]; [exact I|].
+    apply lookup_none_keys in N. contradiction.
+Qed.
 
 (* every path of the hash table was reported by an earlier rebuild, and was
    either written or is a path at which writing failed *)
@@ -28,69 +55,90 @@ Definition table_inv (st : state) (R W F : list path) : Prop :=
   forall p, In p (keys (latest st)) -> In p R /\ (In p W \/ In p F).
 
 Lemma step_io_cases st oc wf st' r :
-  step_io phys fixed opt st oc wf = (st', r) ->
+  step_io_gen phys fixed fixio opt st oc wf = (st', r) ->
   write opt = true -> to_stdout opt = false ->
   (r_failed_early r = true /\ r_outputs r = [] /\
    latest st' = (if fixed then latest st else []) /\
    (forall p, In (EDelete p) (r_effects r) -> fixed = false /\ In p (keys (latest st))) /\
    writes_of (r_effects r) = [])
   \/
-  (r_failed_early r = false /\ latest st' = hashes_of (r_outputs r) /\
-   (forall p, In (EDelete p) (r_effects r) -> In p (keys (latest st)) /\ ~ In p (map o_path (r_outputs r))) /\
-   (forall o, In o (r_outputs r) ->
-      In (o_path o) (keys (latest st)) \/ In (o_path o) wf \/ In (o_path o) (writes_of (r_effects r)))).
+  (r_failed_early r = false /\
+   (exists failed, (forall p, In p failed -> In p wf) /\
+      latest st' = (if fixio then forget_failed (hashes_of (r_outputs r)) (latest st) failed else hashes_of (r_outputs r)) /\
+      (forall o, In o (r_outputs r) ->
+         In (o_path o) (keys (latest st)) \/ In (o_path o) failed \/ In (o_path o) (writes_of (r_effects r)))) /\
+   (forall p, In (EDelete p) (r_effects r) -> In p (keys (latest st)) /\ ~ In p (map o_path (r_outputs r)))).
 Proof.
-  unfold step_io.
+  unfold step_io_gen.
   destruct (if scan_err oc then ([], true)
             else let '(res, cerr) := compile opt oc in (res, cerr || cancel_early oc || cancel_late oc)) as [results err1].
   intros E HW HS. injection E as E1 E2. subst st' r. rewrite HW, HS.
   cbn [negb andb r_failed_early r_outputs r_effects latest]. destruct err1; cbn [negb andb].
   - left. repeat split.
-    + rewrite andb_true_r. destruct fixed; reflexivity.
+    + rewrite andb_true_r. destruct fixed; [reflexivity|]. simpl. destruct fixio; reflexivity.
     + rewrite andb_true_r in H. destruct fixed; [contradiction | reflexivity].
     + rewrite andb_true_r in H. destruct fixed; [contradiction|]. simpl in H.
       apply in_map_iff in H as [q [Eq Hq]]. injection Eq as Eq. subst q. apply filter_In in Hq as [Hq _]. exact Hq.
     + rewrite andb_true_r. destruct fixed; [reflexivity|]. simpl. apply writes_of_deletes.
-  - right. rewrite andb_false_r, map_id. repeat split.
-    + apply in_app_or in H as [H|H].
-      * exfalso. apply in_flat_map in H as [o [_ Hi]]. destruct (mem (o_path o) wf); simpl in Hi; [contradiction|].
-        destruct Hi as [Hi|[]]. discriminate.
-      * apply in_map_iff in H as [q [Eq Hq]]. injection Eq as Eq. subst q. apply filter_In in Hq as [Hq _]. exact Hq.
-    + apply in_app_or in H as [H|H].
-      * exfalso. apply in_flat_map in H as [o [_ Hi]]. destruct (mem (o_path o) wf); simpl in Hi; [contradiction|].
-        destruct Hi as [Hi|[]]. discriminate.
-      * apply in_map_iff in H as [q [Eq Hq]]. injection Eq as Eq. subst q. apply filter_In in Hq as [_ Hq].
-        apply negb_true_iff in Hq. apply mem_false in Hq. intro Hin. apply Hq. apply keys_hashes_of. exact Hin.
-    + intros o Ho. destruct (skip phys st (hashes_of results) o) eqn:ES.
-      * left. unfold skip in ES. destruct (lookup (latest st) (o_path o)) eqn:EL; [|discriminate].
-        eapply lookup_in_keys. exact EL.
-      * right. destruct (mem (o_path o) wf) eqn:EM.
-        -- left. apply mem_In. exact EM.
-        -- right. rewrite writes_of_app, writes_of_deletes, app_nil_r.
-           unfold writes_of. apply in_flat_map.
-           exists (EWrite (o_path o) (o_data o)). split; [|left; reflexivity].
-           apply in_flat_map. exists o. split.
-           ++ apply filter_In. split; [exact Ho | rewrite ES; reflexivity].
-           ++ rewrite EM. left. reflexivity.
+  - right. rewrite andb_false_r, map_id. split; [reflexivity|]. split.
+    + eexists. split; [|split; [reflexivity|]].
+      * intros p Hp. apply in_map_iff in Hp as [o [Eo Ho]]. subst p. apply filter_In in Ho as [_ Ho]. apply mem_In. exact Ho.
+      * intros o Ho. destruct (skip phys st (hashes_of results) o) eqn:ES.
+        -- left. unfold skip in ES. destruct (lookup (latest st) (o_path o)) eqn:EL; [|discriminate].
+           eapply lookup_in_keys. exact EL.
+        -- right. destruct (mem (o_path o) wf) eqn:EM.
+           ++ left. apply in_map. apply filter_In. split; [|exact EM].
+              apply filter_In. split; [exact Ho | rewrite ES; reflexivity].
+           ++ right. rewrite writes_of_app, writes_of_deletes, app_nil_r.
+              unfold writes_of. apply in_flat_map.
+              exists (EWrite (o_path o) (o_data o)). split; [|left; reflexivity].
+              apply in_flat_map. exists o. split.
+              ** apply filter_In. split; [exact Ho | rewrite ES; reflexivity].
+              ** rewrite EM. left. reflexivity.
+    + intros p H. split.
+      * apply in_app_or in H as [H|H].
+        -- exfalso. apply in_flat_map in H as [o [_ Hi]]. destruct (mem (o_path o) wf); simpl in Hi; [contradiction|].
+           destruct Hi as [Hi|[]]. discriminate.
+        -- apply in_map_iff in H as [q [Eq Hq]]. injection Eq as Eq. subst q. apply filter_In in Hq as [Hq _]. exact Hq.
+      * apply in_app_or in H as [H|H].
+        -- exfalso. apply in_flat_map in H as [o [_ Hi]]. destruct (mem (o_path o) wf); simpl in Hi; [contradiction|].
+           destruct Hi as [Hi|[]]. discriminate.
+        -- apply in_map_iff in H as [q [Eq Hq]]. injection Eq as Eq. subst q. apply filter_In in Hq as [_ Hq].
+           apply negb_true_iff in Hq. apply mem_false in Hq. intro Hin. apply Hq. apply keys_hashes_of. exact Hin.
 Qed.
 
 Lemma table_inv_step st oc wf st' r R W F :
-  step_io phys fixed opt st oc wf = (st', r) ->
+  step_io_gen phys fixed fixio opt st oc wf = (st', r) ->
   table_inv st R W F ->
-  table_inv st' (R ++ map o_path (r_outputs r)) (W ++ writes_of (r_effects r)) (F ++ wf).
+  table_inv st' (R ++ map o_path (r_outputs r)) (W ++ writes_of (r_effects r)) (F ++ (if fixio then [] else wf)).
 Proof.
   intros E Inv HW HS p Hp.
-  destruct (step_io_cases _ _ _ _ _ E HW HS) as [[_ [_ [EL _]]]|[_ [EL [_ HO]]]].
+  destruct (step_io_cases _ _ _ _ _ E HW HS) as [[_ [_ [EL _]]]|[_ [[failed [HFW [EL HO]]] _]]].
   - rewrite EL in Hp. destruct fixed; [|contradiction].
     destruct (Inv HW HS p Hp) as [A [B|B]]; split; try (apply in_or_app; left; assumption).
     + left. apply in_or_app. left. exact B.
     + right. apply in_or_app. left. exact B.
-  - rewrite EL in Hp. apply keys_hashes_of in Hp. split; [apply in_or_app; right; exact Hp|].
-    apply in_map_iff in Hp as [o [Eo Ho]]. subst p.
-    destruct (HO o Ho) as [H|[H|H]].
-    + destruct (Inv HW HS _ H) as [_ [B|B]]; [left | right]; apply in_or_app; left; exact B.
-    + right. apply in_or_app. right. exact H.
-    + left. apply in_or_app. right. exact H.
+  - assert (OLD : forall q, In q (keys (latest st)) -> In q (R ++ map o_path (r_outputs r)) /\
+                  (In q (W ++ writes_of (r_effects r)) \/ In q (F ++ (if fixio then [] else wf)))).
+    { intros q H. destruct (Inv HW HS _ H) as [A [B|B]]; (split; [apply in_or_app; left; exact A|]);
+        [left | right]; apply in_or_app; left; exact B. }
+    assert (NEW : forall o, In o (r_outputs r) -> (fixio = true -> ~ In (o_path o) failed) ->
+                  In (o_path o) (R ++ map o_path (r_outputs r)) /\
+                  (In (o_path o) (W ++ writes_of (r_effects r)) \/ In (o_path o) (F ++ (if fixio then [] else wf)))).
+    { intros o Ho HNF. destruct (HO o Ho) as [H|[H|H]].
+      - apply OLD. exact H.
+      - split; [apply in_or_app; right; apply in_map; exact Ho|].
+        destruct fixio; [exfalso; exact (HNF eq_refl H)|].
+        right. apply in_or_app. right. apply HFW. exact H.
+      - split; [apply in_or_app; right; apply in_map; exact Ho|]. left. apply in_or_app. right. exact H. }
+    rewrite EL in Hp. destruct fixio.
+    + apply in_keys_lookup in Hp. rewrite lookup_forget_failed in Hp.
+      destruct (mem p failed) eqn:EM.
+      * apply OLD. apply in_keys_lookup. exact Hp.
+      * apply in_keys_lookup, keys_hashes_of in Hp. apply in_map_iff in Hp as [o [Eo Ho]]. subst p.
+        apply NEW; [exact Ho|]. intros _ Hin. apply mem_false in EM. contradiction.
+    + apply keys_hashes_of in Hp. apply in_map_iff in Hp as [o [Eo Ho]]. subst p.
+      apply NEW; [exact Ho | discriminate].
 Qed.
 
 Lemma io_deletes_gen ocs : forall st R W F,
@@ -104,42 +152,62 @@ Lemma io_deletes_gen ocs : forall st R W F,
 Proof.
   induction ocs as [|[oc0 wf0] ocs IH]; intros st R W F Inv pre oc wf res post E p Hp.
   - destruct pre; discriminate.
-  - simpl in E. destruct (step_io phys fixed opt st oc0 wf0) as [st' r0] eqn:ES.
+  - simpl in E. destruct (step_io_gen phys fixed fixio opt st oc0 wf0) as [st' r0] eqn:ES.
     destruct pre as [|x pre].
     + simpl in E. injection E as E1 E2 E3 E4. subst oc0 wf0 r0.
       assert (HWS : write opt = true /\ to_stdout opt = false).
-      { revert ES Hp. unfold step_io.
+      { revert ES Hp. unfold step_io_gen.
         destruct (if scan_err oc then ([], true)
                   else let '(res0, cerr) := compile opt oc in (res0, cerr || cancel_early oc || cancel_late oc)) as [results err1].
         intro E. injection E as E1 E2. subst st' res. cbn [r_effects].
         destruct (write opt); [|intros []]. destruct (to_stdout opt); [intros []|]. auto. }
       destruct HWS as [HW HS].
       assert (Hk : In p (keys (latest st)) /\ ~ In p (map o_path (r_outputs res))).
-      { destruct (step_io_cases _ _ _ _ _ ES HW HS) as [[_ [EO [_ [HD _]]]]|[_ [_ [HD _]]]].
+      { destruct (step_io_cases _ _ _ _ _ ES HW HS) as [[_ [EO [_ [HD _]]]]|[_ [_ HD]]].
         - destruct (HD p Hp) as [_ Hk]. split; [exact Hk|]. rewrite EO. intros [].
         - exact (HD p Hp). }
       destruct Hk as [Hk Hn]. destruct (Inv HW HS p Hk) as [A B].
-      unfold reported_paths, written_paths_io, failed_paths. simpl. rewrite !app_nil_r.
+      unfold reported_paths, written_paths_io, failed_paths. simpl.
+      assert (X : (if fixio then (@nil path) else []) = []) by (destruct fixio; reflexivity).
+      rewrite X, !app_nil_r.
       repeat split; try assumption.
       intros Hq Hin. exact (Hq p Hin A).
     + simpl in E. injection E as E1 E2. subst x.
       pose proof (table_inv_step _ _ _ _ _ _ _ _ ES Inv) as Inv'.
       destruct (IH _ _ _ _ Inv' _ _ _ _ _ E2 p Hp) as [A [B [C D]]].
-      unfold reported_paths, written_paths_io, failed_paths in *. cbn [flat_map fst snd].
+      assert (FE : (F ++ (if fixio then [] else wf0)) ++ failed_paths pre = F ++ failed_paths ((oc0, wf0, r0) :: pre)).
+      { unfold failed_paths. destruct fixio; [rewrite !app_nil_r; reflexivity|]. cbn [flat_map fst snd]. rewrite app_assoc. reflexivity. }
+      rewrite FE in C.
+      unfold reported_paths, written_paths_io in *. cbn [flat_map fst snd].
       rewrite !app_assoc. repeat split; assumption.
 Qed.
 
 End WithFS.
 
-(* from the initial state of a context *)
-Lemma io_deletes_all phys fixed opt d0 ocs pre oc wf res post :
-  trace_io_full phys fixed opt (init d0) ocs = pre ++ (oc, wf, res) :: post ->
+(* from the initial state of a context; before b32af0b *)
+Lemma io_deletes_all_before_fix phys fixed opt d0 ocs pre oc wf res post :
+  trace_io_full phys fixed false opt (init d0) ocs = pre ++ (oc, wf, res) :: post ->
   forall p, In (EDelete p) (r_effects res) ->
     In p (reported_paths pre) /\
     ~ In p (map o_path (r_outputs res)) /\
-    (In p (written_paths_io pre) \/ In p (failed_paths pre)) /\
+    (In p (written_paths_io pre) \/ In p (failed_paths false pre)) /\
     ((forall q, In q (inputs oc) -> ~ In q (reported_paths pre)) -> ~ In p (inputs oc)).
 Proof.
   intros E p Hp.
-  apply (io_deletes_gen phys fixed opt ocs (init d0) [] [] [] (fun _ _ _ F => match F with end) pre oc wf res post E p Hp).
+  apply (io_deletes_gen phys fixed false opt ocs (init d0) [] [] [] (fun _ _ _ F => match F with end) pre oc wf res post E p Hp).
+Qed.
+
+(* the current code: whatever is deleted was WRITTEN by an earlier rebuild, write failures or not *)
+Lemma io_deletes_all phys fixed opt d0 ocs pre oc wf res post :
+  trace_io_full phys fixed true opt (init d0) ocs = pre ++ (oc, wf, res) :: post ->
+  forall p, In (EDelete p) (r_effects res) ->
+    In p (reported_paths pre) /\
+    ~ In p (map o_path (r_outputs res)) /\
+    In p (written_paths_io pre) /\
+    ((forall q, In q (inputs oc) -> ~ In q (reported_paths pre)) -> ~ In p (inputs oc)).
+Proof.
+  intros E p Hp.
+  destruct (io_deletes_gen phys fixed true opt ocs (init d0) [] [] [] (fun _ _ _ F => match F with end) pre oc wf res post E p Hp)
+    as [A [B [[C|C] D]]]; try (repeat split; assumption).
+  simpl in C. contradiction.
 Qed.
